@@ -314,10 +314,15 @@ def k_api(run, case):
     stamped = bool(rng.random() < .5)
     m1, m2 = ["se3", "xyzq"][rng.integers(2)], ["se3", "se3", "xyzq"][rng.integers(3)]
     f1, f2 = gen.rand_flavour(rng), gen.rand_flavour(rng)
-    t_ref, t_est = gen.make_evo(ref, m1, stamped, flavour=f1), gen.make_evo(est, m2, stamped, flavour=f2)
-    gen.age(rng, t_ref, p=.3), gen.age(rng, t_est, p=.3)
     relation = RELS[rng.integers(6)]
     plane = [None, None, None, "xy", "xz", "yz"][rng.integers(6)]
+    if plane and not (align or cs or origin) and rng.random() < .5:
+        # 2-D localisation with full attitudes: positions exactly in the plane, roll / pitch present
+        nd = {"xy": 2, "xz": 1, "yz": 0}[plane]
+        ref["p"][:, nd] = 0.0
+        est["p"][:, nd] = 0.0
+    t_ref, t_est = gen.make_evo(ref, m1, stamped, flavour=f1), gen.make_evo(est, m2, stamped, flavour=f2)
+    gen.age(rng, t_ref, p=.3), gen.age(rng, t_est, p=.3)
     o = {"align": align, "correct_scale": cs, "n_to_align": -1, "align_origin": origin, "project_to_plane": plane}
     out = contracts.outcome_of(main_ape.ape, t_ref, t_est, metrics.PoseRelation[relation], align=align, correct_scale=cs,
                                align_origin=origin, project_to_plane=Plane(plane) if plane else None)
